@@ -102,3 +102,8 @@ package state
 //@   props C13 C15 C12
 //@   ensures [starts-at-zero] result != nil && result.height == 0 && result.view == 0
 //@   ensures [with-a-fresh-registry] result.Contexts != nil && !result.Contexts.shutdown && result.Contexts.newestHvCanceledOlder == nil && result.Contexts.hvToContext != nil && result.Contexts.parentCtxWithCancel != nil && result.Contexts.parentCtxWithCancel.ctx != nil
+
+// ---- logging helper (its call is skipped as A-LOG; that it cannot panic, nil receiver included, is proved here) ----
+//@ func (*HeightView).String
+//@   props C12
+//@   safety all
